@@ -5,7 +5,7 @@
 From Coq Require Import List NArith Bool Arith Lia.
 From Coq.Strings Require Import Byte.
 Import ListNotations.
-From OV Require Import Base.Bytes Base.Cases Base.Tree Model.Nav.
+From OV Require Import Base.Bytes Base.Cases Base.Tree Model.Nav Gen.NavShape.
 
 (* ---- paths ------------------------------------------------------------------------------------ *)
 Section PathLemmas.
@@ -600,6 +600,381 @@ Proof.
   - intros o Hq. eapply obs_sim; eauto.
   - intros m Hq. eapply move_sim; eauto.
   - intros dw iw Hw2. eapply moveto_sim; eauto.
+Qed.
+
+(* ---- ref_ok is decidable: the computation check_case runs ------------------------------------------ *)
+Lemma ref_okb_spec R (p : prog R) : forall doc regs,
+  ref_okb doc p regs = true <-> ref_ok doc p regs.
+Proof.
+  induction p as [r|x o k IH|x m k IH|x y k IH|x y k IH]; intros doc regs; simpl.
+  - split; auto.
+  - rewrite andb_true_iff, negb_true_iff.
+    destruct (d_obs false doc (regs x) o) as [v|]; [rewrite IH|]; tauto.
+  - rewrite andb_true_iff, negb_true_iff.
+    destruct (d_move false doc (regs x) m) as [[v' b]|]; [rewrite IH|]; tauto.
+  - apply IH.
+  - destruct (d_moveto (regs x) (regs y)) as [v' b]. apply IH.
+Qed.
+
+(* ---- the guard is exactly the two defects of the reference ------------------------------------------ *)
+(* Outside Q1 nothing an observation returns differs ... *)
+Lemma obs_differ_only_at_Q1 doc dv iv o :
+  dom_wfb doc = true -> nav_rel doc dv iv ->
+  d_obs false doc dv o <> i_obs (to_idr doc) iv o -> quirk_obs doc dv o = true.
+Proof.
+  intros Hw Hrel Hne. destruct (quirk_obs doc dv o) eqn:E; [reflexivity|].
+  destruct (obs_sim false _ _ _ o Hw Hrel (or_intror E)) as (v & Hd & Hi). congruence.
+Qed.
+
+(* ... and at Q1 the two answers are "" and the text of the document: they differ exactly when the
+   document contains text. *)
+Lemma Q1_characterised doc dv iv o :
+  dom_wfb doc = true -> nav_rel doc dv iv -> quirk_obs doc dv o = true ->
+  o = OValue /\ exists n, d_node doc (dn_cur dv) = Some n /\ d_kind n = DDoc /\
+    d_obs false doc dv o = Some (VStr []) /\
+    i_obs (to_idr doc) iv o = Some (VStr (d_inner_text n)).
+Proof.
+  intros Hw Hrel Hq.
+  destruct (obs_sim true _ _ _ o Hw Hrel (or_introl eq_refl)) as (v & Hd & Hi).
+  unfold quirk_obs in Hq. destruct o; try discriminate. split; [reflexivity|].
+  unfold d_nodetype in Hq. destruct (d_node doc (dn_cur dv)) as [n|] eqn:Hn; [|discriminate].
+  exists n. destruct (d_kind n) eqn:Hk; simpl in Hq; try discriminate.
+  - repeat split; try reflexivity.
+    + unfold d_obs, d_value. rewrite Hn, Hk. reflexivity.
+    + rewrite Hi, <- Hd. unfold d_obs, d_value. rewrite Hn, Hk. reflexivity.
+  - destruct (dn_attr dv); discriminate.
+Qed.
+
+(* Q2: MoveToRoot on an attribute position.  Both report success and go to the root; xmlquery
+   keeps the attribute index, which is the only difference. *)
+Lemma Q2_characterised doc dv iv m :
+  dom_wfb doc = true -> nav_rel doc dv iv -> quirk_move dv m = true ->
+  m = MRoot /\ exists i, dn_attr dv = Some i /\
+    d_move false doc dv m = Some (mkDNav (dn_root dv) (dn_root dv) (Some i), true) /\
+    d_move true doc dv m = Some (mkDNav (dn_root dv) (dn_root dv) None, true) /\
+    i_move (to_idr doc) iv m = Some (mkINav (in_root iv) (in_root iv), true).
+Proof.
+  intros Hw Hrel Hq. unfold quirk_move in Hq.
+  destruct m; try discriminate. split; [reflexivity|].
+  destruct (dn_attr dv) as [i|] eqn:Ea; [|discriminate]. exists i. split; [reflexivity|].
+  destruct Hrel as [Hroot Hpos]. rewrite Ea in Hpos. simpl in Hpos.
+  destruct Hpos as (ip & n & Hr & Hn & Hi & Hc).
+  destruct (attr_lookup n i Hi) as [a Ha].
+  pose proof (attr_pos_node _ _ _ _ _ _ Hr Hn Ha) as Hin.
+  unfold d_move, i_move. rewrite Hn, Hc, Hin, Ea. auto.
+Qed.
+
+Lemma moves_differ_only_at_Q2 doc dv iv m :
+  dom_wfb doc = true -> nav_rel doc dv iv -> quirk_move dv m = false ->
+  d_move true doc dv m = d_move false doc dv m.
+Proof.
+  intros Hw Hrel Hq. unfold d_move. destruct (d_node doc (dn_cur dv)); [|reflexivity].
+  destruct m; try reflexivity. unfold quirk_move in Hq.
+  destruct (dn_attr dv); [discriminate|reflexivity].
+Qed.
+
+(* ---- the relation determines the IDR navigator ---------------------------------------------------- *)
+Lemma nav_rel_inj doc dv iv iv' : nav_rel doc dv iv -> nav_rel doc dv iv' -> iv = iv'.
+Proof.
+  intros [Hr1 Hp1] [Hr2 Hp2]. destruct iv as [r c], iv' as [r' c']; simpl in *.
+  f_equal; [eapply path_rel_inj; eauto|].
+  destruct (dn_attr dv) as [i|]; simpl in *.
+  - destruct Hp1 as (ip1 & n1 & H1 & _ & _ & ->). destruct Hp2 as (ip2 & n2 & H2 & _ & _ & ->).
+    f_equal. eapply path_rel_inj; eauto.
+  - eapply path_rel_inj; eauto.
+Qed.
+
+(* ---- names: what the engine's name test sees ---------------------------------------------------------- *)
+(* build.go:44-52: root.LocalName == n.LocalName() && root.Prefix == n.Prefix() *)
+Definition name_test_dom (doc : dnode) (dv : dnav) (pfx local : bytes) : option bool :=
+  match d_obs false doc dv OLocalName, d_obs false doc dv OPrefix with
+  | Some l, Some p => Some (obs_eqb l (VStr local) && obs_eqb p (VStr pfx))
+  | _, _ => None
+  end.
+Definition name_test_idr (t : tree) (iv : inav) (pfx local : bytes) : option bool :=
+  match i_obs t iv OLocalName, i_obs t iv OPrefix with
+  | Some l, Some p => Some (obs_eqb l (VStr local) && obs_eqb p (VStr pfx))
+  | _, _ => None
+  end.
+
+Lemma name_of_element doc dr ir dp ip n :
+  dom_wfb doc = true -> path_rel doc dr ir -> path_rel doc dp ip -> d_node doc dp = Some n ->
+  i_obs (to_idr doc) (mkINav ir ip) OLocalName = Some (VStr (d_data n)) /\
+  i_obs (to_idr doc) (mkINav ir ip) OPrefix = Some (VStr (d_prefix n)).
+Proof.
+  intros Hw Hroot Hr Hn.
+  assert (Hrel : nav_rel doc (mkDNav dr dp None) (mkINav ir ip)) by (split; assumption).
+  split.
+  - destruct (obs_sim false _ _ _ OLocalName Hw Hrel (or_intror eq_refl)) as (v & Hd & Hi).
+    rewrite Hi, <- Hd. unfold d_obs, d_localname; simpl. rewrite Hn. reflexivity.
+  - destruct (obs_sim false _ _ _ OPrefix Hw Hrel (or_intror eq_refl)) as (v & Hd & Hi).
+    rewrite Hi, <- Hd. unfold d_obs, d_prefix_of, d_nodetype; simpl. rewrite Hn.
+    destruct (d_kind n); reflexivity.
+Qed.
+
+Lemma name_of_attribute doc dr ir dp ip n i a :
+  dom_wfb doc = true -> path_rel doc dr ir -> path_rel doc dp ip -> d_node doc dp = Some n ->
+  nth_error (d_attrs n) i = Some a ->
+  i_obs (to_idr doc) (mkINav ir (i :: ip)) OLocalName = Some (VStr (da_local a)) /\
+  i_obs (to_idr doc) (mkINav ir (i :: ip)) OPrefix = Some (VStr (da_prefix a)) /\
+  i_obs (to_idr doc) (mkINav ir (i :: ip)) OValue = Some (VStr (da_value a)) /\
+  i_obs (to_idr doc) (mkINav ir (i :: ip)) ONodeType = Some (VType XAttribute).
+Proof.
+  intros Hw Hroot Hr Hn Ha.
+  pose proof (attr_pos_node _ _ _ _ _ _ Hr Hn Ha) as Hin.
+  unfold i_obs, i_localname, i_prefix_of, i_value, i_nodetype, i_type; simpl. rewrite Hin. simpl.
+  rewrite app_nil_r. auto.
+Qed.
+
+(* Name tests decide alike on both bindings, at every related position (no guard: LocalName and
+   Prefix are never in Q1). *)
+Lemma name_test_agree doc dv iv pfx local :
+  dom_wfb doc = true -> nav_rel doc dv iv ->
+  name_test_idr (to_idr doc) iv pfx local = name_test_dom doc dv pfx local /\
+  name_test_idr (to_idr doc) iv pfx local <> None.
+Proof.
+  intros Hw Hrel. unfold name_test_idr, name_test_dom.
+  destruct (obs_sim false _ _ _ OLocalName Hw Hrel (or_intror eq_refl)) as (l & Hd1 & Hi1).
+  destruct (obs_sim false _ _ _ OPrefix Hw Hrel (or_intror eq_refl)) as (p & Hd2 & Hi2).
+  rewrite Hd1, Hd2, Hi1, Hi2. split; [reflexivity|discriminate].
+Qed.
+
+Lemma obs_eqb_str a b : obs_eqb (VStr a) (VStr b) = true <-> a = b.
+Proof. simpl. apply bytes_eqb_eq. Qed.
+
+(* A bare name (empty prefix) selects an element exactly when the element has that local name AND
+   no prefix - never a prefixed namesake (the C11-r33 class). *)
+Lemma bare_name_test_element doc dr ir dp ip n local :
+  dom_wfb doc = true -> path_rel doc dr ir -> path_rel doc dp ip -> d_node doc dp = Some n ->
+  (name_test_idr (to_idr doc) (mkINav ir ip) [] local = Some true <->
+   d_data n = local /\ d_prefix n = []).
+Proof.
+  intros Hw Hroot Hr Hn.
+  destruct (name_of_element _ _ _ _ _ _ Hw Hroot Hr Hn) as [Hl Hp].
+  unfold name_test_idr. rewrite Hl, Hp. split.
+  - intros H. inversion H as [H1]. apply andb_prop in H1 as [A B].
+    apply obs_eqb_str in A. apply obs_eqb_str in B. auto.
+  - intros [-> ->]. f_equal. apply andb_true_intro. split; apply obs_eqb_str; reflexivity.
+Qed.
+
+(* ---- attribute positions ------------------------------------------------------------------------------- *)
+Definition on_attribute (dv : dnav) : Prop := dn_attr dv <> None.
+
+(* child / sibling moves refuse on an attribute and leave the navigator where it is *)
+Lemma attr_position_refuses doc dv iv m :
+  dom_wfb doc = true -> nav_rel doc dv iv -> on_attribute dv ->
+  m = MChild \/ m = MFirst \/ m = MNext \/ m = MPrev ->
+  i_move (to_idr doc) iv m = Some (iv, false).
+Proof.
+  intros Hw Hrel Ha Hm.
+  assert (Hq : true = true \/ quirk_move dv m = false) by (left; reflexivity).
+  destruct (move_sim true _ _ _ m Hw Hrel Hq) as (dv' & iv' & b & Hd & Hi & Hrel').
+  assert (Hdm : d_move true doc dv m = Some (dv, false)).
+  { destruct Hrel as [_ Hpos]. unfold on_attribute in Ha.
+    destruct (dn_attr dv) as [i|] eqn:E; [|congruence]. simpl in Hpos.
+    destruct Hpos as (ip & n & _ & Hn & _ & _).
+    unfold d_move. rewrite Hn, E. destruct Hm as [ -> | [ -> | [ -> | -> ] ] ]; reflexivity. }
+  rewrite Hdm in Hd. inversion Hd; subst.
+  rewrite Hi. f_equal. f_equal. eapply nav_rel_inj; eauto.
+Qed.
+
+(* MoveToParent from an attribute goes to the element that carries it *)
+Lemma attr_parent_is_owner doc dr ir dp ip n i :
+  dom_wfb doc = true -> path_rel doc dr ir -> path_rel doc dp ip -> d_node doc dp = Some n ->
+  i < length (d_attrs n) ->
+  i_move (to_idr doc) (mkINav ir (i :: ip)) MParent = Some (mkINav ir ip, true).
+Proof.
+  intros Hw Hroot Hr Hn Hi.
+  destruct (attr_lookup n i Hi) as [a Ha].
+  pose proof (attr_pos_node _ _ _ _ _ _ Hr Hn Ha) as Hin.
+  unfold i_move; simpl. rewrite Hin. reflexivity.
+Qed.
+
+(* one MoveToNextAttribute: from the element to attribute 0, from attribute i to attribute i+1,
+   refused after the last one *)
+Lemma next_attr_step doc dr ir dp ip n (cur : option nat) :
+  dom_wfb doc = true -> path_rel doc dr ir -> path_rel doc dp ip -> d_node doc dp = Some n ->
+  match cur with Some i => i < length (d_attrs n) | None => True end ->
+  let nxt := match cur with Some i => S i | None => 0 end in
+  let here := match cur with Some i => i :: ip | None => ip end in
+  i_move (to_idr doc) (mkINav ir here) MNextAttr =
+  Some (if nxt <? length (d_attrs n) then (mkINav ir (nxt :: ip), true) else (mkINav ir here, false)).
+Proof.
+  intros Hw Hroot Hr Hn Hc nxt here.
+  assert (Hrel : nav_rel doc (mkDNav dr dp cur) (mkINav ir here)).
+  { split; simpl; [assumption|]. destruct cur as [i|]; simpl; [exists ip, n; auto|assumption]. }
+  destruct (move_sim true _ _ _ MNextAttr Hw Hrel (or_introl eq_refl)) as (dv' & iv' & b & Hd & Hi & Hrel').
+  unfold d_move in Hd; simpl in Hd. rewrite Hn in Hd. fold nxt in Hd.
+  rewrite Hi. f_equal.
+  destruct (nxt <? length (d_attrs n)) eqn:E.
+  - apply Nat.ltb_lt in E.
+    replace (length (d_attrs n) <=? nxt) with false in Hd by (symmetry; apply Nat.leb_gt; lia).
+    inversion Hd; subst. f_equal. eapply nav_rel_inj; [exact Hrel'|].
+    split; simpl; [assumption|]. exists ip, n. auto.
+  - apply Nat.ltb_ge in E.
+    replace (length (d_attrs n) <=? nxt) with true in Hd by (symmetry; apply Nat.leb_le; lia).
+    inversion Hd; subst. f_equal. eapply nav_rel_inj; eauto.
+Qed.
+
+Lemma attr_walk_from doc dr ir dp ip n :
+  dom_wfb doc = true -> path_rel doc dr ir -> path_rel doc dp ip -> d_node doc dp = Some n ->
+  forall fuel (cur : option nat),
+  match cur with Some i => i < length (d_attrs n) | None => True end ->
+  let nxt := match cur with Some i => S i | None => 0 end in
+  let here := match cur with Some i => i :: ip | None => ip end in
+  length (d_attrs n) - nxt < fuel ->
+  i_attr_walk (to_idr doc) (mkINav ir here) fuel = Some (map attr_obs (skipn nxt (d_attrs n))).
+Proof.
+  intros Hw Hroot Hr Hn. induction fuel as [|f IH]; intros cur Hc nxt here Hf; [lia|].
+  simpl. unfold here. rewrite (next_attr_step _ _ _ _ _ _ cur Hw Hroot Hr Hn Hc). fold nxt.
+  destruct (nxt <? length (d_attrs n)) eqn:E; lazy beta iota zeta.
+  - apply Nat.ltb_lt in E.
+    destruct (attr_lookup n nxt E) as [a Ha].
+    destruct (name_of_attribute _ _ _ _ _ _ _ _ Hw Hroot Hr Hn Ha) as (Hl & Hp & Hv & _).
+    unfold i_obs in Hl, Hp, Hv. rewrite Hp, Hl, Hv.
+    rewrite (IH (Some nxt)) by (simpl; lia). simpl.
+    f_equal. clear - Ha. revert Ha. generalize (d_attrs n) as l. generalize nxt as k.
+    induction k as [|k IHk]; intros [|x l] Ha; simpl in *; try discriminate.
+    + inversion Ha; reflexivity.
+    + apply IHk; assumption.
+  - apply Nat.ltb_ge in E. rewrite skipn_all2 by lia. reflexivity.
+Qed.
+
+(* The attribute axis over the IDR: the attributes of the element, all of them, in document order,
+   each with its prefix, local name and value. *)
+Lemma attr_walk_document_order doc dr ir dp ip n fuel :
+  dom_wfb doc = true -> path_rel doc dr ir -> path_rel doc dp ip -> d_node doc dp = Some n ->
+  length (d_attrs n) < fuel ->
+  i_attr_walk (to_idr doc) (mkINav ir ip) fuel = Some (map attr_obs (d_attrs n)).
+Proof.
+  intros Hw Hroot Hr Hn Hf.
+  apply (attr_walk_from _ _ _ _ _ _ Hw Hroot Hr Hn fuel None I). simpl. lia.
+Qed.
+
+(* ---- idr/query.go wrappers over any iterator ---------------------------------------------------------- *)
+Section WrapperProofs.
+  Variable S N : Type.
+  Variable next : S -> istep S N.
+
+  (* the iterator, started in s, produces exactly l and then ends (false) or panics (true) *)
+  Inductive yields : S -> list N -> bool -> Prop :=
+  | y_end s : next s = IEnd -> yields s [] false
+  | y_panic s : next s = IPanic -> yields s [] true
+  | y_next s n s' l b : next s = INext n s' -> yields s' l b -> yields s (n :: l) b.
+
+  Lemma match_all_loop_yields s l b :
+    yields s l b -> forall fuel acc, length l < fuel ->
+    match_all_loop next fuel s acc = if b then WErr EQueryFailed else WOk (rev acc ++ l).
+  Proof.
+    induction 1 as [s H|s H|s n s' l b H Hy IH]; intros fuel acc Hf;
+      (destruct fuel as [|f]; [simpl in Hf; lia|]); simpl; rewrite H.
+    - rewrite app_nil_r; reflexivity.
+    - reflexivity.
+    - rewrite IH by (simpl in Hf; lia). destruct b; [reflexivity|].
+      simpl. rewrite <- app_assoc. reflexivity.
+  Qed.
+
+  Lemma match_all_loop_ok_inv fuel : forall s acc r,
+    match_all_loop next fuel s acc = WOk r -> exists l, yields s l false /\ r = rev acc ++ l.
+  Proof.
+    induction fuel as [|f IH]; intros s acc r H; simpl in H; [discriminate|].
+    destruct (next s) as [n s'| |] eqn:E; try discriminate.
+    - apply IH in H as (l & Hy & ->). exists (n :: l). split; [econstructor; eauto|].
+      simpl. rewrite <- app_assoc. reflexivity.
+    - inversion H; subst. exists []. split; [constructor; assumption|]. rewrite app_nil_r; reflexivity.
+  Qed.
+
+  (* MatchAll returns the engine's iteration, every node, in that order, nothing removed, nothing
+     merged - and only that. *)
+  Theorem match_all_is_the_iteration self s l :
+    (exists fuel, match_all next false self (Some s) fuel = WOk l) <-> yields s l false.
+  Proof.
+    unfold match_all. split.
+    - intros [fuel H]. apply match_all_loop_ok_inv in H as (l' & Hy & ->). exact Hy.
+    - intros Hy. exists (Datatypes.S (length l)).
+      rewrite (match_all_loop_yields _ _ _ Hy) by lia. reflexivity.
+  Qed.
+
+  Lemma match_all_enough_fuel self s l b fuel :
+    yields s l b -> length l < fuel ->
+    match_all next false self (Some s) fuel = if b then WErr EQueryFailed else WOk l.
+  Proof. intros Hy Hf. unfold match_all. rewrite (match_all_loop_yields _ _ _ Hy) by assumption. reflexivity. Qed.
+
+  Definition classify (l : list N) : wres N :=
+    match l with [] => WErr ENoMatch | [x] => WOk x | _ :: _ :: _ => WErr EMoreThanExpected end.
+
+  (* MatchSingle: none / exactly one / more than one *)
+  Theorem match_single_classification self s l :
+    yields s l false -> match_single next false self (Some s) = classify l.
+  Proof.
+    intros Hy. unfold match_single.
+    inversion Hy as [s0 H|s0 H|s0 n s' l' b H Hy']; subst; rewrite H; [reflexivity|].
+    inversion Hy' as [s1 H1|s1 H1|s1 n1 s1' l1 b1 H1 Hy1]; subst; rewrite H1; reflexivity.
+  Qed.
+
+  (* a panic inside the library: reported as a failed query unless two nodes were already seen *)
+  Theorem match_single_on_panic self s l :
+    yields s l true ->
+    match_single next false self (Some s) =
+    match l with _ :: _ :: _ => WErr EMoreThanExpected | _ => WErr EQueryFailed end.
+  Proof.
+    intros Hy. unfold match_single.
+    inversion Hy as [s0 H|s0 H|s0 n s' l' b H Hy']; subst; rewrite H; [reflexivity|].
+    inversion Hy' as [s1 H1|s1 H1|s1 n1 s1' l1 b1 H1 Hy1]; subst; rewrite H1; reflexivity.
+  Qed.
+
+  (* the two entry points answer one question *)
+  Theorem match_single_consistent_with_match_all self s fuel l :
+    match_all next false self (Some s) fuel = WOk l ->
+    match_single next false self (Some s) = classify l.
+  Proof.
+    intros H. apply match_single_classification.
+    apply match_all_is_the_iteration with (self := self). eauto.
+  Qed.
+
+  Theorem match_any_spec s l b :
+    yields s l b -> match_any next s = match l with [] => false | _ :: _ => true end.
+  Proof. intros Hy. unfold match_any. inversion Hy; subst; rewrite H; reflexivity. Qed.
+
+  Theorem match_dot self c fuel :
+    match_all next true self c fuel = WOk [self] /\ match_single next true self c = WOk self.
+  Proof. split; reflexivity. Qed.
+End WrapperProofs.
+
+(* a scripted iterator yields its script *)
+Lemma script_yields panics l : yields (list N) N (script_next panics) l l panics.
+Proof.
+  induction l as [|n l IH].
+  - destruct panics; [apply y_panic|apply y_end]; reflexivity.
+  - eapply y_next; [reflexivity|exact IH].
+Qed.
+
+(* ---- the model's tables and statement shapes are the ones extracted from navigator.go ---------- *)
+Lemma nodetype_table_extracted ty : nav_nodetype_code ty = Some (xtype_code (i_xtype_of ty)).
+Proof. destruct ty; reflexivity. Qed.
+
+(* what the extracted guard shape means in the model: on an AttributeNode the four moves return
+   false at once, on ANY tree (not only on to_idr doc) *)
+Lemma attr_guard_model t v n m :
+  i_node t (in_cur v) = Some n -> is_attr (t_type n) = true ->
+  m = MChild \/ m = MFirst \/ m = MNext \/ m = MPrev ->
+  i_move t v m = Some (v, false).
+Proof.
+  intros Hn Ha Hm. unfold i_move. rewrite Hn.
+  destruct Hm as [ -> | [ -> | [ -> | -> ] ] ]; rewrite Ha; reflexivity.
+Qed.
+
+Lemma navigator_shape_extracted :
+  (forall ty, nav_nodetype_code ty = Some (xtype_code (i_xtype_of ty))) /\
+  nav_child_sibling_moves_refuse_on_attribute = true /\
+  (forall t v n m, i_node t (in_cur v) = Some n -> is_attr (t_type n) = true ->
+     m = MChild \/ m = MFirst \/ m = MNext \/ m = MPrev -> i_move t v m = Some (v, false)) /\
+  nav_value_is_inner_text = true /\
+  (forall t v, i_value t v = option_map inner_text (i_node t (in_cur v))).
+Proof.
+  repeat split.
+  - apply nodetype_table_extracted.
+  - apply attr_guard_model.
 Qed.
 
 (* ---- the unguarded statement is false of the faithful models: witnesses for Q1 and Q2 ----------- *)
